@@ -258,7 +258,7 @@ class WrapperModel(Model):
         if step:
             v = ('call', f, args, kws)
             outs = []
-            for tok in ('TypeError', GENERIC):
+            for tok in ('TypeError', 'KeyError', GENERIC):     # KeyError: an argument's __hash__ / __repr__ / __reduce__ that misses in a dict of its own
                 s2 = st.fork()
                 s2.emit('KEYGENRAISE', (C(step), C(tok)), line)
                 outs.append(R(s2, None, tok, line))
